@@ -27,7 +27,8 @@ EXPLANATION = (
     'a violation. Not decided: the principal-angle route (a theorem, not a rewriting), the GMD sweep, Sherman-Morrison and '
     'the eigen/singular selectors as numbers, floating-point error and conditioning.'
     ' General rules also applied here (see DESIGN 10.5): input immutability (no in-place modification of an array argument, alias- and view-aware).'
-    ' C20.i: singular values are never multiplied elementwise with V^H without a new axis (columns instead of rows).')
+    ' C20.i: singular values are never multiplied elementwise with V^H without a new axis (columns instead of rows).'
+    ' C20.j: the GMD sweep sets its no-rotation flag in every weak ordering of the three compared quantities in which the two diagonal entries are equal (no 0/0 in the Givens rotation; finite enumeration of orderings, a necessary condition only).')
 
 PAIRS = [('linear2dB', 'dB2Linear'), ('dB2Linear', 'linear2dB'), ('linear2dBm', 'dBm2Linear'),
          ('dBm2Linear', 'linear2dBm'), ('EbN0_dB_to_SNR_dB', 'SNR_dB_to_EbN0_dB'),
@@ -70,6 +71,7 @@ def check(ctx: Ctx) -> None:
     check_chordal(ctx)
     check_whitening(ctx)
     check_gmd_bookkeeping(ctx)
+    check_gmd_rotation_guard(ctx)
     from ..idioms import check_mean_counts
     check_mean_counts(ctx, 'C20.g', [MISC, PROJ], floor=20)
     from ..idioms import check_no_alias_inplace
@@ -312,6 +314,135 @@ def check_gmd_bookkeeping(ctx: Ctx, rule: str = 'C20.f') -> None:
                       'for 5 or more singular values' % why, fn.path, st.lineno, operand='paired-update')
 
 
+def check_gmd_rotation_guard(ctx: Ctx, rule: str = 'C20.j') -> None:
+    """%s: on the path of the GMD sweep that computes the Givens rotation, the divisor d[k]^2 - d[i]^2 cannot vanish.
+
+    The pair (c, s) of the sweep is c = sqrt((sigma^2 - d2^2) / (d1^2 - d2^2)) unless `flag` was set.  `flag` is decided ONLY by order
+    comparisons among three quantities (the current entry, the geometric mean, the entry picked from the other end), so its value is a
+    function of their weak ordering: all 13 orderings are enumerated (27 rank assignments) and `flag` must be set in each one where the two
+    entries are equal - otherwise the rotation divides 0 by 0 (all singular values equal: identity, scaled unitary, permutation)."""
+    import itertools
+    from ..model import walk_no_nested
+    M = ctx.model
+    ctx.rule(rule, 'gmd(): the flag that skips the Givens rotation is set in every weak ordering of (d[k], sigma_bar, d[i]) with d[k] == d[i]; '
+                   'otherwise c = sqrt((sigma_bar^2 - d[i]^2) / (d[k]^2 - d[i]^2)) is 0/0 (decided by enumerating the 27 rank assignments of '
+                   'the three compared quantities: the tests look at them through order comparisons only)', floor=1)
+    fn = M.func(MISC, 'gmd')
+    ctx.instance(rule, 'gmd')
+
+    def is_set_true(st, name=None):
+        return isinstance(st, ast.Assign) and len(st.targets) == 1 and isinstance(st.targets[0], ast.Name) \
+            and isinstance(st.value, ast.Constant) and bool(st.value.value) and (name is None or st.targets[0].id == name)
+
+    def inner_flag(body):
+        """(flag name, test) of the single `if <test>: flag = <true>` of a block, the test True when the block sets it unconditionally."""
+        out = []
+        for st in body:
+            if is_set_true(st):
+                out.append((st.targets[0].id, None))
+            if isinstance(st, ast.If) and not st.orelse and len(st.body) == 1 and is_set_true(st.body[0]):
+                out.append((st.body[0].targets[0].id, st.test))
+        return out
+
+    cands = []
+    for n in walk_no_nested(fn.node):
+        if isinstance(n, ast.If) and n.orelse:
+            a, b = inner_flag(n.body), inner_flag(n.orelse)
+            if len(a) == 1 and len(b) == 1 and a[0][0] == b[0][0]:
+                cands.append((n, a[0][0], a[0][1], b[0][1]))
+    # the non-flag branch must contain a division by a difference (the rotation); otherwise the clause has nothing to guard here
+    guarded = []
+    for n in walk_no_nested(fn.node):
+        if isinstance(n, ast.If):
+            t = n.test
+            neg = isinstance(t, ast.UnaryOp) and isinstance(t.op, ast.Not)
+            nm = t.operand if neg else t
+            if isinstance(nm, ast.Compare) and len(nm.ops) == 1 and isinstance(nm.comparators[0], ast.Constant):
+                c0 = nm.comparators[0].value
+                if isinstance(nm.ops[0], (ast.Eq, ast.Is)) and c0 in (0, False):
+                    neg, nm = not neg, nm.left
+                elif (isinstance(nm.ops[0], (ast.Eq, ast.Is)) and c0 in (1, True)) or (isinstance(nm.ops[0], (ast.NotEq, ast.IsNot)) and c0 in (0, False)):
+                    nm = nm.left
+            if isinstance(nm, ast.Name):
+                rot = n.body if neg else n.orelse
+                for st in rot:
+                    for e in ast.walk(st):
+                        if isinstance(e, ast.BinOp) and isinstance(e.op, ast.Div) and isinstance(e.right, ast.BinOp) and isinstance(e.right.op, ast.Sub):
+                            guarded.append((nm.id, norm(e.right), st.lineno))
+    cands = [c for c in cands if any(g[0] == c[1] for g in guarded)]
+    if len(cands) != 1:
+        ctx.error(rule + ': the two-sided selection that sets the no-rotation flag of gmd, or the division it guards, is not recognised '
+                  '(%d candidates, guarded divisions %s): cannot tell' % (len(cands), guarded))
+    node, flag, t_then, t_else = cands[0]
+    tests = [t for t in (node.test, t_then, t_else) if t is not None]
+    operands = []
+    for t in tests:
+        for e in ast.walk(t):
+            if isinstance(e, ast.Compare):
+                for o in [e.left] + list(e.comparators):
+                    if norm(o) not in operands:
+                        operands.append(norm(o))
+    outer = [norm(o) for e in ast.walk(node.test) if isinstance(e, ast.Compare) for o in [e.left] + list(e.comparators)]
+    subs = [o for o in operands if '[' in o]
+    if len(operands) != 3 or len(subs) != 2 or not any(o in outer for o in subs):
+        ctx.error(rule + ': the flag tests of gmd compare %s, not two diagonal entries with one threshold: cannot tell' % operands)
+    dk = [o for o in subs if o in outer][0]
+    di = [o for o in subs if o != dk]
+    if not di:
+        ctx.error(rule + ': the flag tests of gmd never look at the entry picked from the other end: cannot tell')
+    di = di[0]
+
+    class Unknown_(Exception):
+        pass
+
+    def ev(e, env):
+        if e is None:
+            return True
+        if isinstance(e, ast.BoolOp):
+            vs = [ev(v, env) for v in e.values]
+            return all(vs) if isinstance(e.op, ast.And) else any(vs)
+        if isinstance(e, ast.UnaryOp) and isinstance(e.op, ast.Not):
+            return not ev(e.operand, env)
+        if isinstance(e, ast.Compare):
+            items = [e.left] + list(e.comparators)
+            ok = True
+            for x, op, y in zip(items, e.ops, items[1:]):
+                if norm(x) not in env or norm(y) not in env:
+                    raise Unknown_(norm(e))
+                a, b = env[norm(x)], env[norm(y)]
+                table = {ast.Lt: a < b, ast.LtE: a <= b, ast.Gt: a > b, ast.GtE: a >= b, ast.Eq: a == b, ast.NotEq: a != b}
+                if type(op) not in table:
+                    raise Unknown_(norm(e))
+                ok = ok and table[type(op)]
+            return ok
+        raise Unknown_(norm(e))
+
+    bad, seen = [], 0
+    try:
+        for ranks in itertools.product(range(3), repeat=3):
+            env = dict(zip(operands, ranks))
+            if env[dk] != env[di]:
+                continue
+            seen += 1
+            f = ev(t_then, env) if ev(node.test, env) else ev(t_else, env)
+            if not f:
+                thr = [o for o in operands if o not in (dk, di)][0]
+                rel = '==' if env[thr] == env[dk] else ('<' if env[dk] < env[thr] else '>')
+                if '%s == %s %s %s' % (dk, di, rel, thr) not in bad:
+                    bad.append('%s == %s %s %s' % (dk, di, rel, thr))
+    except Unknown_ as e:
+        ctx.error(rule + ': the flag test `%s` of gmd is not a pure order comparison: cannot tell' % e)
+    ctx.obligation(rule, 'gmd', not bad, {'flag': flag, 'outer_test': norm(node.test), 'then_test': norm(t_then) if t_then is not None else 'True',
+                                          'else_test': norm(t_else) if t_else is not None else 'True', 'compared': operands,
+                                          'orderings_with_equal_entries': seen, 'unguarded': bad,
+                                          'guarded_division': [g[1] for g in guarded if g[0] == flag]})
+    if bad:
+        ctx.violation(rule, 'gmd', 'the no-rotation flag `%s` is not set when %s: the sweep then computes c = sqrt((sigma^2 - d2^2) / (%s)) with a '
+                      'zero divisor (0/0 -> nan in Q, R, P for a matrix whose singular values are all equal: identity, scaled unitary, '
+                      'permutation)' % (flag, ' or '.join(bad), [g[1] for g in guarded if g[0] == flag][0]), fn.path, node.lineno,
+                      operand='rotation-guard')
+
+
 def check_gmd_threshold(ctx: Ctx, rule: str, caller_paths) -> None:
     """The GMD as the library uses it keeps EVERY singular value: the effective threshold is 0 (scale invariance)."""
     from ..astutil import const_value
@@ -386,6 +517,8 @@ MUTANTS = [
     Mutant('benign-singular-values-with-new-axis', MISC, 'get_principal_component_matrix',
            [('replace', 'out = np.dot(U, np.dot(newS, V_H[:, :num_components]))', 'out = np.dot(U, np.dot(newS, V_H[:, :num_components])) + 0 * (S[:, np.newaxis] * V_H[:S.size])[:1, :1]')],
            None, benign=True),
+    Mutant('gmd-strict-no-rotation-test', MISC, 'gmd', [('replace', 'if d[i] >= sigma_bar:', 'if d[i] > sigma_bar:')], r'C20\.j:gmd'),
+    Mutant('benign-gmd-yoda-flag-test', MISC, 'gmd', [('replace', 'if d[i] <= sigma_bar:', 'if not d[i] > sigma_bar:')], None, benign=True),
     Mutant('gmd-inverse-permutation-wrong-slot', MISC, 'gmd', [('replace', 'invperm[i] = j', 'invperm[k1] = j')], r'C20\.f:gmd'),
     Mutant('dBm2Linear-in-place', CONV, 'dBm2Linear', [('regex', r'    return dB2Linear\(valueIndBm\) / 1000\.0', '    valueIndBm -= 30\n    return dB2Linear(valueIndBm)')],
            r'C20\.e:dBm2Linear'),
